@@ -117,12 +117,27 @@ func runC02(r *Run, p *Prog) {
 					}
 				}
 				for _, c2 := range callsIn(f, false) {
-					if staticTarget(c2.Common) == ro.Handle && ro.Handle != nil {
-						check(c2.Common.Args[3], c2.Instr, "dispatches")
-						// HandleMessage decodes its request parameter unchanged
-						for _, d := range decodeSites(ro.Handle) {
-							r.Ob("F2", shortName(ro.Handle), "the request parameter is decoded unchanged", d.Call.Pos(), strip(T.T(d.Data)) == "param:"+ro.Handle.Params[3].Name(),
-								"HandleMessage decodes "+strip(T.T(d.Data))+" instead of the request bytes it was given")
+					if t2 := staticTarget(c2.Common); ro.Handle != nil && isDispatchTarget(p, ro, t2) && bytesArg(c2.Common) != nil {
+						check(bytesArg(c2.Common), c2.Instr, "dispatches")
+						// the dispatch entry decodes its request parameter unchanged (possibly handed on by HandleMessage)
+						for g := range cg.Reach([]*ssa.Function{t2}, false) {
+							for _, d := range decodeSites(g) {
+								dt := strip(T.T(d.Data))
+								if _, isSl := d.Data.Type().Underlying().(*types.Slice); !isSl || !(strings.HasPrefix(dt, "param:") || g == t2) {
+									continue
+								}
+								isParam := false
+								for _, prm := range g.Params {
+									if dt == "param:"+prm.Name() {
+										isParam = true
+									}
+								}
+								if g != dispatchEntry(p, ro) {
+									continue
+								}
+								r.Ob("F2", shortName(g), "the request parameter is decoded unchanged", d.Call.Pos(), isParam,
+									"the dispatch entry decodes "+dt+" instead of the request bytes it was given")
+							}
 						}
 					}
 				}
